@@ -28,6 +28,16 @@ def run_all(run, section, scns, tie=True, strict=True):
             items.append((scn, st, o))
     if tie:
         tracelevel.check_runs(run, section + ':trace-tie', items, strict=strict)
+        # world conformance: the file-system model applied to the same operations must give the snapshot taken after the step
+        import worldtie
+        witems = []
+        for scn, res in out:
+            prev = res.get('before')
+            for st, o in zip(scn['steps'], res['steps']):
+                if st.get('cmd') != 'fs' and o.get('after') is not None and prev is not None:
+                    witems.append((scn, st, o, prev))
+                prev = o.get('after', prev)
+        worldtie.check(run, section + ':world-tie', witems)
     return out
 
 
